@@ -171,7 +171,9 @@ func (st *Store) SetPendingAmount(addr keys.Address, height int64, coin *balance
 
 //iterate addresses for height
 func (st *Store) IteratePendingAmounts(height int64, fn func(addr *keys.Address, coin *balance.Coin) bool) bool {
-	prefix := append(st.buildPendingKey(), strconv.FormatInt(height, 10)...)
+	// the height is followed by the key separator: without it the scan for height 2 also
+	// visits the entries of heights 20..29, 200.., which were then paid early and again later
+	prefix := append(st.buildPendingKey(), (strconv.FormatInt(height, 10) + storage.DB_PREFIX)...)
 	return st.iterateAddresses(prefix, func(addr *keys.Address, coin *balance.Coin) bool {
 		return fn(addr, coin)
 	})
